@@ -23,7 +23,7 @@ EXPLANATION = ('An abstract evaluation of the comparison-only function RuleEntry
                'on every opcode handler bound for constraint code, monotonicity of the pass index, and the size expression that '
                'wipes recycled slots.  The matching / precedence OUTPUT of rule programs against a reference semantics is a '
                'run-time fact and is not decided.')
-FLOORS = {'PRECEDENCE': 6, 'FIRSTPASSING': 1, 'PURECONSTRAINT': 30, 'PASSORDER': 3, 'RECYCLECLEAN': 3}
+FLOORS = {'PRECEDENCE': 6, 'FIRSTPASSING': 1, 'PURECONSTRAINT': 30, 'PASSORDER': 4, 'RECYCLECLEAN': 3}
 
 MUTATORS = {'graphite2::Slot::setGlyph', 'graphite2::Slot::attachTo', 'graphite2::Slot::child', 'graphite2::Slot::sibling', 'graphite2::Slot::removeChild',
             'graphite2::Slot::setAttr', 'graphite2::Segment::setFeature', 'graphite2::Segment::newSlot', 'graphite2::Segment::freeSlot',
@@ -494,6 +494,7 @@ def run(run):
     sortedlists(run, fx)
     attrsign(run, fx)
     setglyphfx(run, fx)
+    freshmark(run, fx)
     firstpassing(run, fx)
     pureconstraint(run, vm)
     passorder(run, fx)
@@ -580,6 +581,38 @@ def passexec(run, fx, maxp=4, collect=None):
                 if log.count('assoc') != 1 or [x for x in log if x == 'assoc' or isinstance(x, int)] != list(range(p)) + ['assoc'] + list(range(p, n)):
                     return cases, '%s: characters are associated at %s, expected once between the substitution and positioning passes' % (desc, log), None
     return cases, None, None
+
+
+def freshmark(run, fx):
+    """Pass::runGraphite reverses the stream first when the pass runs the other way; every slot pointer it then works with -- the cursor
+    and the first high-water mark -- is taken from the stream AFTER that reversal: no value derived from the stream before the
+    reverseSlots() call (`s->next()` hoisted above it) reaches SlotMap::highwater() or the rule loop."""
+    from .util import reaches_avoiding
+    fn = fx.one('graphite2::Pass::runGraphite')
+    revs = calls_in(fn, 'graphite2::Segment::reverseSlots')
+    hws = [e for e in calls_in(fn, 'graphite2::SlotMap::highwater') if e.get('args')]
+    inst = 'the first high-water mark is taken after the reversal'
+    if not revs or not hws:
+        run.broken('PASSORDER', inst, 'reverseSlots() / highwater(x) calls not found in Pass::runGraphite', fn.where())
+        return
+    bad = None
+    for h in hws:
+        a = fn.strip_all_casts(fn.N(h['args'][0]))
+        if a['k'] != 'DeclRefExpr' or a.get('vid') is None:
+            continue
+        defs = [d for _, d in fn.elements() if (d['k'] == 'DeclStmt' and any(x.get('vid') == a['vid'] and x.get('init') is not None for x in d.get('decls', [])))
+                or (d['k'] == 'BinaryOperator' and d['op'] == '=' and fn.strip_all_casts(fn.N(d['c'][0])).get('vid') == a['vid'])]
+        for d in defs:
+            for r in revs:
+                others = [x for x in defs if x is not d]
+                if reaches_avoiding(fn, d, r, avoid=others) and reaches_avoiding(fn, r, h, avoid=defs):
+                    bad = (d, r, h, fn.render(a))
+    if bad:
+        d, r, h, nm = bad
+        run.violated('PASSORDER', inst, fn.loc(d), '`%s` is computed at line %s, the stream is reversed at line %s, and the stale value is installed as the high-water mark at line %s: it is the '
+                     'second-to-last slot of the reversed stream, so the rule loop counts every position against MaxRuleLoop and skips the middle of the text' % (nm, d['ln'], r['ln'], h['ln']))
+    else:
+        run.held('PASSORDER', inst, fn.loc(hws[0]), 'no definition of the mark reaches highwater() across reverseSlots()')
 
 
 def setglyphfx(run, fx):
